@@ -270,7 +270,8 @@ Proof. vm_compute. reflexivity. Qed.
     orphans are EXACTLY the persisted branches that left the tree (a Remove of an absent key records
     nothing); an orphan row means exactly "node of the checkpoint trees from its creation to the
     checkpoint before [at], of none from [at] on"; after any history of versions and deletions every
-    retained checkpoint loads back node for node, and nothing unreachable is left.  The seeded
+    retained checkpoint loads back node for node (and nothing unreachable is left, as long as no
+    branchless checkpoint loses pending orphans: see below).  The seeded
     defects (orphans recorded before knowing whether the key exists; orphan rows tagged with the
     previous checkpoint) are refuted, and so is the deletion whose bound lies beyond the latest
     version while later checkpoints are written before the pruner runs (the writer selects by
@@ -317,11 +318,19 @@ Theorem C20_prune_keeps_checkpoints_node_level :
 Proof. exact prune_keeps_checkpoints. Qed.
 Print Assumptions C20_prune_keeps_checkpoints_node_level.
 
-Theorem C20_prune_exact_node_level :
+(** Exactness ("nothing unreachable is left") holds only for histories in which no checkpoint of
+    a tree WITHOUT a branch root (empty tree, single leaf) has pending orphans: there the library
+    writes nothing (saveBranches does everything under isCheckpoint() = len(tree.branches) > 0) and
+    SaveVersion clears the pending list - the orphans are lost and their rows are never deleted.
+    Found by the tie (x oraw: the raw orphan / branch / root rows of the real database against
+    this model), modelled faithfully ([checkpoint_write_at], [root_is_branch]), refuted in general.
+    A leak: nothing needed is lost, the property does not speak about it. *)
+Theorem C20_prune_exact_node_level_partial :
   forall H : bytes -> bytes,
     (forall x : bytes, H x <> []) ->
     forall (interval : Z) (hist : list hstep) (s : ostate) (tr : list (Z * option node))
            (n c : Z) (st' : ostore) (key : nkey2) (row : node_row),
+      no_loss H interval ostate_empty hist = true ->
       os_run H false false interval ostate_empty hist = Some s ->
       os_trace H false false interval ostate_empty hist = Some tr ->
       prune_tree (os_store s) n = Some st' ->
@@ -331,8 +340,23 @@ Theorem C20_prune_exact_node_level :
         In (v, T) tr /\
         Z.max (run_floor H interval ostate_empty hist (-1)) c <= v /\
         In key (okeys T).
-Proof. exact prune_exact. Qed.
-Print Assumptions C20_prune_exact_node_level.
+Proof. exact prune_exact_partial. Qed.
+Print Assumptions C20_prune_exact_node_level_partial.
+
+Theorem C20_prune_exact_node_level_refuted :
+  exists (hist : list hstep) (s : ostate) (tr : list (Z * option node))
+         (n c : Z) (st' : ostore) (key : nkey2) (row : node_row),
+    os_run sha256 false false 1 ostate_empty hist = Some s /\
+    os_trace sha256 false false 1 ostate_empty hist = Some tr /\
+    prune_tree (os_store s) n = Some st' /\
+    find_previous (ckpts (os_store s)) n = FPVal c /\
+    In (key, row) (branches st') /\
+    ~ (exists (v : Z) (T : option node),
+         In (v, T) tr /\
+         Z.max (run_floor sha256 1 ostate_empty hist (-1)) c <= v /\
+         In key (okeys T)).
+Proof. exact prune_exact_refuted. Qed.
+Print Assumptions C20_prune_exact_node_level_refuted.
 
 Theorem C20_prune_with_a_stale_checkpoint_list :
   forall H : bytes -> bytes,
